@@ -39,7 +39,10 @@ THEOREMS = {
     "C04": _gt("errEnum_eq", "limits_eq", "buildOpts_eq") + [("Eav.Props.C04", "Eav.Props.C04." + n) for n in
             ("host_iff", "isAsciiDomain_iff_spec", "specHost_iff", "host6531_sound", "isAsciiDomain_nonpos")] + [("Eav.Lemmas.Domain", "Eav.domLoop_ok")],
     "C05": _gt("errEnum_eq"),
-    "C06": _gt("init_sets_all", "init_fields", "limits_eq", "lenFilter_eq"),
+    "C06": _gt("init_sets_all", "init_fields", "limits_eq", "lenFilter_eq") + [("Eav.Props.C06", "Eav.Props.C06." + n) for n in
+            ("isAsciiDomain_ok", "isIpv4_ok", "isIpv6_ok", "checkIp_ok", "isSpecialDomain_ok", "checkTld_ok", "isUtf8Domain_ok", "isEmail_ok", "step_isEmail_ok")] +
+           [("Eav.Props.C13", "Eav.Props.C13." + n) for n in ("run_inv", "free_releases", "lifecycle_releases")] +
+           [("Eav.Props.C16", "Eav.Props.C16.no_abort"), ("Eav.Props.C09", "Eav.Props.C09.copyLabel_take"), ("Eav.Props.C15", "Eav.Props.C15.errcode_lt_max")],
     "C07": _gt("errEnum_eq", "tldTypeEnum_eq") + [("Eav.Props.C07", "Eav.Props.C07." + n) for n in
             ("tldScan_eq_lookup", "isTld_eq_lookup", "whole_label", "case_insensitive", "isTld_eq_csv")] +
            [("Eav.Props.C11", "Eav.Props.C11." + n) for n in ("table_eq_gen", "lengths_and_types", "names_lower_alabel", "names_distinct")],
@@ -60,7 +63,7 @@ THEOREMS = {
     "C14": _gt("no_mutable_globals", "externals_mt_safe") + [("Eav.Props.C14", "Eav.Props.C14.sched_indep"), ("Eav.Props.C14", "Eav.Props.C14.shared_is_empty")],
     "C15": _gt("errEnum_eq", "errors_tags", "errors_runtime", "errors_nonempty", "errors_distinct", "setup_eq") +
            [("Eav.Props.C15", "Eav.Props.C15." + n) for n in
-            ("localOf_range", "isAsciiDomain_range", "verdict_shape", "code_origin", "lpart_code_sound", "too_many_dots_sound", "domain_code_sound")] +
+            ("localOf_range", "isAsciiDomain_range", "verdict_shape", "code_origin", "lpart_code_sound", "too_many_dots_sound", "domain_code_sound", "rc_lower", "errcode_lt_max")] +
            [("Eav.Props.C13", "Eav.Props.C13.errstr_latest"), ("Eav.Props.C13", "Eav.Props.C13.failed_setup_keeps_mode"),
             ("Eav.Props.C19", "Eav.Props.C19.idn_failure_contained")],
     "C16": _gt("errEnum_eq", "tldTypeEnum_eq") + [("Eav.Props.C16", "Eav.Props.C16." + n) for n in
